@@ -1,6 +1,6 @@
 use log::trace;
 use std::cmp::{Ordering, min, max};
-use std::collections::HashMap;
+use std::collections::{HashMap, HashSet};
 use std::fmt;
 
 use super::{VariableName, VariableType};
@@ -454,6 +454,8 @@ pub struct DegreeEnvironment {
     // bounds of the degree of each variable.
     degree_ranges: HashMap<VariableName, DegreeRange>,
     var_types: HashMap<VariableName, VariableType>,
+    // Variables which have been assigned to (with a known or unknown degree).
+    assigned: HashSet<VariableName>,
 }
 
 impl DegreeEnvironment {
@@ -478,6 +480,18 @@ impl DegreeEnvironment {
         if self.var_types.insert(var.clone(), var_type.clone()).is_none() {
             trace!("setting type of `{var:?}` to `{var_type}`");
         }
+    }
+
+    /// Records that the given variable is assigned to.
+    pub fn set_assigned(&mut self, var: &VariableName) {
+        self.assigned.insert(var.clone());
+    }
+
+    /// Returns true if the given variable has been assigned to. (This does
+    /// not imply that the degree of the variable is known.)
+    #[must_use]
+    pub fn is_assigned(&self, var: &VariableName) -> bool {
+        self.assigned.contains(var)
     }
 
     /// Gets the degree range of the given variable.
